@@ -32,15 +32,15 @@ PROPS = {
               "Gx.C05.inputs_untouched", "Gx.C05.euler_aliases", "Gx.checkScheme_sound", "Gx.checkRhs_sound_named"] + COMMON,
              ["Gx.Pins.scheme_aliases", "Gx.Pins.scheme_members_accepted"],
              ns.c05_run, ns.c05_case),
-    "C06": P("GotranxProofs.Properties.C06",
-             ["Gx.C06.eval_rl_store", "Gx.C06.rl_fallback", "Gx.C06.rl_exponential", "Gx.C06.rlStore_guarded", "Gx.C06.rlStore_zero",
+    "C06": P("GotranxProofs.Properties.C06 GotranxProofs.GenValidRL",
+             ["Gx.GenValidRL.genGRL_valid", "Gx.GenValidRL.rl_generators_valid", "Gx.DiffFv.sub_diff", "Gx.GenValidRL.checkNoHelperClash_sound", "Gx.C06.eval_rl_store", "Gx.C06.rl_fallback", "Gx.C06.rl_exponential", "Gx.C06.rlStore_guarded", "Gx.C06.rlStore_zero",
               "Gx.C06.diff_var_other", "Gx.C06.diff_var_self", "Gx.C06.grl_aliases_and_delta", "Gx.checkScheme_sound",
               "Gx.C06.linearisation_is_derivative", "Gx.C06.zero_linearisation_gives_euler", "Gx.C06.exact_for_affine", "Gx.C06.converges_to_euler",
               "Gx.C06.no_division_by_zero", "Gx.diff_correct", "Gx.diff_zero_of_not_mentions", "Gx.rl_exact_affine", "Gx.affine_flow_solves", "Gx.rl_first_order"] + COMMON,
              ["Gx.Pins.scheme_aliases", "Gx.Pins.default_delta", "Gx.Pins.rl_always_guarded"],
              ns.make_run(ns.c06_case, 45, 1500, ns.scheme_cfg, extra=ns.c06_family), ns.c06_case),
-    "C07": P("GotranxProofs.Properties.C07",
-             ["Gx.C07.hybrid_empty_eq_euler", "Gx.C07.hybrid_all_eq_grl", "Gx.C07.hybrid_foreign_names", "Gx.C07.hybrid_slotwise",
+    "C07": P("GotranxProofs.Properties.C07 GotranxProofs.GenValidRL",
+             ["Gx.GenValidRL.genHybrid_valid", "Gx.GenValidRL.rl_generators_valid", "Gx.C07.hybrid_empty_eq_euler", "Gx.C07.hybrid_all_eq_grl", "Gx.C07.hybrid_foreign_names", "Gx.C07.hybrid_slotwise",
               "Gx.C07.bodySlots_congr", "Gx.C07.rlStore_nonstiff", "Gx.C07.rlStore_stiff", "Gx.C07.hybrid_aliases", "Gx.checkScheme_sound"] + COMMON,
              ["Gx.Pins.scheme_aliases"],
              ns.make_run(ns.c07_case, 30, 1200, ns.scheme_cfg), ns.c07_case),
